@@ -13,7 +13,9 @@ import (
 
 // isInterplay says whether a corpus package is one of the hand-written ones
 // (no checker of its own; many checkers on the same nodes).
-func isInterplay(name string) bool { return strings.HasPrefix(name, "x_") || strings.HasPrefix(name, "o_") }
+func isInterplay(name string) bool {
+	return strings.HasPrefix(name, "x_") || strings.HasPrefix(name, "o_")
+}
 
 // visitSchedule is the order in which run indices sweep the corpus: every
 // package once, the hand-written interplay packages three times.
@@ -188,7 +190,7 @@ func schedName(s *simrt.SchedConfig) string {
 	}
 	switch s.Strategy {
 	case simrt.StratPrio:
-		names := []string{"main-first", "workers-first", "reverse", "pct", "pct-main-low"}
+		names := []string{"main-first", "workers-first", "reverse", "pct", "pct-main-low", "pct-main-high"}
 		return fmt.Sprintf("%s(d=%d)", names[s.PrioRule], len(s.ChangePoints))
 	case simrt.StratRW:
 		return fmt.Sprintf("random-walk(gap=%d)", s.RWMeanGap)
